@@ -166,12 +166,10 @@ def _for_slist(self, n, lst):
     st.ghost['$i%d' % k] = IntVal(0)
     _establish(self, k, spec, 'entry')
     targets = source.assigned_names([ast.Assign(targets=[n.target], value=ast.Constant(value=None))])
-    _cut(self, k, spec, n, targets)
     i = fresh('fi%d' % k, I)
     st.assume(i >= 0, i <= lst.n)
-    st.ghost['$i%d' % k] = i
-    for item in spec.inv(self):
-        st.assume(item[1])
+    st.ghost['$i%d' % k] = i          # BEFORE the cut: the invariant is assumed at the generic index, not at index 0
+    _cut(self, k, spec, n, targets)
     self._loop_heap_ids, self._loop_mem_ids = set(st.heap), set(st.mem)
     mw, mm = len(st.writes), len(st.memwrites)
     if st.decide(i < lst.n, 'for-more'):
